@@ -6,11 +6,13 @@ import ChialispModel.Drv.Base
 import ChialispModel.Drv.Conv
 import ChialispModel.Drv.Scope
 import ChialispModel.Drv.Core2Drv
+import ChialispModel.Drv.Core3Drv
 import ChialispModel.Drv.ReplLine
 import ChialispModel.Drv.ClassicEnv
 import ChialispModel.Drv.Passes
 import ChialispModel.Drv.UseCheckDrv
 import ChialispModel.Drv.CoreSyms
+import ChialispModel.Drv.Core2Syms
 import ChialispModel.Drv.Src
 import ChialispModel.Drv.Entry
 import ChialispModel.Drv.Purity
@@ -29,11 +31,13 @@ def main (args : List String) : IO UInt32 := do
   match args with
   | ["base"] => Drv.Base.run; return 0
   | ["coresyms"] => Drv.CoreSyms.run; return 0
+  | ["core2syms"] => Drv.Core2Syms.run; return 0
   | ["unused"] => Drv.UseCheckDrv.run; return 0
   | ["passes"] => Drv.PassesDrv.run; return 0
   | ["classicenv"] => Drv.ClassicEnv.run; return 0
   | ["replline"] => Drv.ReplLine.run; return 0
   | ["core2"] => Drv.Core2Drv.run; return 0
+  | ["core3"] => Drv.Core3Drv.run; return 0
   | ["scope"] => Drv.Scope.run; return 0
   | ["conv"] => Drv.Conv.run; return 0
   | ["src"] => Drv.Src.run; return 0
